@@ -1094,6 +1094,22 @@ fn c05(r: &mut Rng, fonts: &[FontInfo], n: u64, tr: &mut Option<std::fs::File>) 
                     break;
                 }
             }
+            // the same plan, but the buffer handed to shape_with_plan has NOT been guessed by the caller (direction, script
+            // and language still unset where the request leaves them unset): shape_with_plan guesses them itself
+            let wp2 = catch(std::panic::AssertUnwindSafe(|| {
+                let mut probe = fill(rq, UnicodeBuffer::new());
+                probe.guess_segment_properties();
+                let feats = features_of(rq);
+                let plan = rustybuzz::ShapePlan::new(&face, probe.direction(), Some(probe.script()), probe.language().as_ref(), &feats);
+                let gb = rustybuzz::shape_with_plan(&face, &plan, fill(rq, UnicodeBuffer::new()));
+                collect(&face, &gb)
+            }));
+            if let Ok(w) = wp2 {
+                if w != fresh {
+                    cnt.fail("C05", "shape-vs-shape_with_plan-unguessed-buffer", &fi.path, rq, &format!("shape={} with_plan={}", fmt_g(&fresh[..fresh.len().min(12)]), fmt_g(&w[..w.len().min(12)])));
+                    break;
+                }
+            }
         }
     }
     // (a2) one buffer recycled ACROSS faces: every step may use another font; nothing a face-specific call
@@ -1637,6 +1653,54 @@ fn c01gen(tr: &mut Option<std::fs::File>) {
                 }
             }
         }
+    }
+    // 4f. every two- and three-letter language code (the language registry is searched and walked for each; rows at the
+    //     ends of the table and languages with several OpenType tags are where an index can run off), with and
+    //     without further subtags, through shape() and through ShapePlan::new
+    {
+        let f = FontSpec::basic(3);
+        let data = build(&f);
+        let mut codes: Vec<String> = Vec::new();
+        for a in b'a'..=b'z' {
+            for b2 in b'a'..=b'z' {
+                codes.push(format!("{}{}", a as char, b2 as char));
+                for c in b'a'..=b'z' {
+                    codes.push(format!("{}{}{}", a as char, b2 as char, c as char));
+                }
+            }
+        }
+        let mut bad = 0u32;
+        for (k, code) in codes.iter().enumerate() {
+            let variants: Vec<String> = match k % 4 { 0 => vec![code.clone()], 1 => vec![code.to_uppercase(), format!("{}-CN", code)], 2 => vec![format!("{}-x-foo", code)], _ => vec![format!("{}-Latn-ZZ-fonipa", code), format!("x-hbot-{}", code)] };
+            for lang in variants {
+                let d = data.clone();
+                let l2 = lang.clone();
+                let r = catch_loc(move || {
+                    let face = Face::from_slice(&d, 0).unwrap();
+                    let rq = Req { text: vec![(pua(0), 0)], lang: Some(l2.clone()), flags: 3, ..Default::default() };
+                    let out = shape_req(&face, &rq);
+                    let language = <rustybuzz::Language as std::str::FromStr>::from_str(&l2).ok();
+                    let plan = rustybuzz::ShapePlan::new(&face, Direction::LeftToRight, Some(rustybuzz::script::LATIN), language.as_ref(), &[]);
+                    let mut b = UnicodeBuffer::new();
+                    b.push_str("a");
+                    b.set_direction(Direction::LeftToRight);
+                    b.set_script(rustybuzz::script::LATIN);
+                    if let Some(l) = language {
+                        b.set_language(l);
+                    }
+                    let gb = rustybuzz::shape_with_plan(&face, &plan, b);
+                    out.len() + gb.len()
+                });
+                cnt.evals += 1;
+                if let Err(e) = r {
+                    bad += 1;
+                    if bad <= 5 {
+                        cnt.fail("C01", "panic", "generated:language-sweep", &Req { text: vec![(pua(0), 0)], lang: Some(lang.clone()), flags: 3, ..Default::default() }, &format!("language {} {}", lang, e));
+                    }
+                }
+            }
+        }
+        println!("c01gen-case language-sweep n={} out=0 ms=0", codes.len());
     }
     // 5. one base followed by 70000 marks attached by mark-to-base and mark-to-mark
     {
